@@ -164,6 +164,7 @@ func (h *vCallHook) Shutdown() {
 
 // a call races with the Release of the last strong reference
 func VH_C10_par_call_vs_release() {
+	vNoBlock(true) // the two goroutines below are the only ones: a wait nobody can end is a hang
 	h := &vCallHook{}
 	c := NewClient(h)
 	h.w = c.WeakRef()
@@ -185,6 +186,7 @@ func VH_C10_par_call_vs_release() {
 
 // two goroutines release the two references of one capability
 func VH_C10_par_release_release() {
+	vNoBlock(true) // the two goroutines below are the only ones: a wait nobody can end is a hang
 	h := &vHook{}
 	c := NewClient(h)
 	c2 := c.AddRef()
@@ -196,6 +198,7 @@ func VH_C10_par_release_release() {
 
 // AddRef races with Release of another reference
 func VH_C10_par_addref_release() {
+	vNoBlock(true) // the two goroutines below are the only ones: a wait nobody can end is a hang
 	h := &vHook{}
 	c := NewClient(h)
 	c2 := c.AddRef()
